@@ -94,9 +94,10 @@ type CallPlan struct {
 	RespTrailer http.Header
 	LateHeader  http.Header // set after the first Send (documented no-op)
 
-	HProg  []HOp
-	HErr   *ErrPlan // returned at the end of HProg (nil: success)
-	HPanic *PanicPlan
+	HProg      []HOp
+	HErr       *ErrPlan // returned at the end of HProg (nil: success)
+	HPanic     *PanicPlan
+	RecoverErr *ErrPlan // what the WithRecover function returns
 
 	CProg    []COp // sender (or only) task
 	CProgRcv []COp // receiver task when Split
